@@ -94,6 +94,14 @@ def run(config: Config) -> int:
                 shutdown_event.set()
                 active = False
 
+        # The workers that remain have been told to shutdown (the event
+        # is set) and do so by themselves, finishing the requests they
+        # have in progress. Only what takes longer than that may is
+        # terminated.
+        deadline = time.monotonic() + config.graceful_timeout + config.shutdown_timeout
+        for process in processes:
+            process.join(max(0.0, deadline - time.monotonic()))
+
         for process in processes:
             process.terminate()
 
